@@ -475,8 +475,13 @@ def model_export_to_file(f, model=None, repo=None):
                         for idx, list_obj in enumerate(attr_value):
                             if list_obj is not None:
                                 if type(list_obj) in PRIMITIVE_PYTHON_TYPES:
+                                    list_obj_id = (
+                                        str(list_obj)
+                                        .replace("\\", "\\\\")
+                                        .replace('"', '\\"')
+                                    )
                                     f.write(
-                                        f'{id(obj)} -> "{list_obj}:{type(list_obj).__name__}"'  # noqa
+                                        f'{id(obj)} -> "{list_obj_id}:{type(list_obj).__name__}"'  # noqa
                                         f' [label="{attr_name}:{idx}" {endmark}]\n'
                                     )
                                 else:
